@@ -18,17 +18,11 @@ from xfabsa import core, numeric as N, siblings as SB
 from xfabsa.core import AnalysisError
 from xfabsa.poly import Rat
 from xfabsa.signatures import SIG, EXPECTED_FUNCTIONS
-from xfabsa.symeval import Evaluator, sym_array, Arr, Opaque, scalar, materialise, vkey
+from xfabsa.api import is_helper
+from xfabsa.symeval import Evaluator, sym_array, Arr, Opaque, scalar, materialise, vkey, RaiseReached, enumerate_signs
 
 EXHAUSTIVE = True
 RESCALED = ("find_omega_general", "find_omega_quart", "find_omega")
-# pairs with weighted parameters/results whose bodies E3 cannot evaluate and whose homogeneity is a paper
-# argument; they must have identical, tau-free trees.  One line of reason each.
-HOMOGENEOUS_BY_PAPER = {
-    "ub_to_u_b": "QR factorisation followed by the diagonal sign normalisation is positively homogeneous: "
-                 "(U, B) of s*UB is (U, s*B) for s > 0; both modules run the identical tau-free code",
-}
-
 
 def sig_weighted(name):
     params, ret = SIG.get(name, (None, None))
@@ -125,7 +119,7 @@ def div_tau(v, w, tau):
     return Arr(rec(A.data))
 
 
-def evaluate_side(mod, name, tau, fn=None):
+def evaluate_side(mod, name, tau, fn=None, oracle=None):
     params, ret = SIG[name]
     args = [scaled_arg(p, shp, w, tau) for (p, shp, w) in params]
     calls = []
@@ -144,11 +138,15 @@ def evaluate_side(mod, name, tau, fn=None):
         key = "%s(%s)" % (cname, ";".join(norm))
         calls.append(key)
         return make_ret(cret, key, tau)
-    ev = Evaluator(mod, inline=set(), call_policy=pol, branch_policy=N.skip_checks_policy)
-    if fn is None:
-        out = ev.call_function(name, args)
-    else:
-        out = ev._call_fn(fn, args, {})
+    ev = Evaluator(mod, inline=set(), call_policy=pol, branch_policy=N.skip_checks_policy, sign_policy=oracle)
+    try:
+        if fn is None:
+            out = ev.call_function(name, args)
+        else:
+            out = ev._call_fn(fn, args, {})
+    except RaiseReached as r:
+        exc = r.node.exc
+        out = ("raises", core.unparse(exc.func if isinstance(exc, ast.Call) else exc) if exc is not None else "re-raise")
     return out, calls
 
 
@@ -172,6 +170,17 @@ def flatten(v):
     raise AnalysisError("cannot flatten %r" % (v,))
 
 
+def shape_of(v):
+    """nesting structure of a result without a signature entry for its shape"""
+    if isinstance(v, Arr):
+        return ("array",) + tuple(v.shape)
+    if isinstance(v, Opaque):
+        return ("array",) + tuple(v.shape or ("?",))
+    if isinstance(v, (list, tuple)):
+        return tuple(shape_of(x) for x in v)
+    return "scalar"
+
+
 def ret_weights(struct):
     """flat list of (count, weight) following flatten() order"""
     if struct is None:
@@ -191,9 +200,38 @@ def ret_weights(struct):
 def semantic_compare(ctx, name, tmod, lmod, lfn=None):
     """-> list of (key suffix, ok, message)"""
     tau = N.tau_of(True)
-    tout, tcalls = evaluate_side(tmod, name, tau)
-    lout, lcalls = evaluate_side(lmod, name, Rat.const(1), fn=lfn)
+    paths = enumerate_signs(lambda o: (evaluate_side(tmod, name, tau, oracle=o),
+                                       evaluate_side(lmod, name, Rat.const(1), fn=lfn, oracle=o)), max_paths=243)
+    if len(paths) == 1:
+        (tout, tcalls), (lout, lcalls) = paths[0][1]
+        return compare_outcomes(name, tau, tout, tcalls, lout, lcalls)
+    # the pair branches on its input: one comparison per sign case of the compared quantities (trace partitioning)
+    bad = []
+    for assume, ((tout, tcalls), (lout, lcalls)) in paths:
+        for suffix, ok, msg in compare_outcomes(name, tau, tout, tcalls, lout, lcalls):
+            if not ok:
+                case = ", ".join("%s %s 0" % (k[:40], {1: ">", 0: "==", -1: "<"}[v]) for k, v in sorted(assume.items()))
+                bad.append((suffix, False, "on the input class {%s}: %s" % (case, msg)))
+    if bad:
+        seen, out = set(), []
+        for b in bad:
+            if b[0] not in seen:
+                seen.add(b[0]); out.append(b)
+        return out
+    return [("result", True, "equal up to tau^w on each of the %d sign cases of the quantities the pair branches on" % len(paths))]
+
+
+def is_raise(v):
+    return isinstance(v, tuple) and len(v) == 2 and v[0] == "raises"
+
+
+def compare_outcomes(name, tau, tout, tcalls, lout, lcalls):
     res = []
+    if is_raise(tout) or is_raise(lout):
+        if is_raise(tout) and is_raise(lout) and tout[1] == lout[1]:
+            return [("result", True, "both raise %s" % tout[1])]
+        return [("result", False, "one module raises, the other does not, or different exceptions: tools %s ; laue %s"
+                 % (tout if is_raise(tout) else "returns", lout if is_raise(lout) else "returns"))]
     # callee sites must correspond: same callee, arguments equal after dividing by tau^w
     if [c.split("(", 1)[0] for c in tcalls] != [c.split("(", 1)[0] for c in lcalls]:
         return [("calls", False, "different callee sequences: tools %s ; laue %s"
@@ -210,6 +248,9 @@ def semantic_compare(ctx, name, tmod, lmod, lfn=None):
             res.append(("call:%s" % callee, True, ""))
     tf, lf = flatten(tout), flatten(lout)
     ws = ret_weights(SIG[name][1])
+    if ws is None and shape_of(tout) != shape_of(lout):
+        res.append(("result", False, "results have different structure: tools %s ; laue %s" % (shape_of(tout), shape_of(lout))))
+        return res
     if len(tf) != len(lf) or (ws is not None and len(ws) != len(tf)):
         res.append(("result", False, "results have different structure (%d vs %d values)" % (len(tf), len(lf))))
         return res
@@ -237,7 +278,13 @@ def run(ctx):
     tmod = core.module("xfab/tools.py")
     lmod = core.module("xfab/laue.py")
     ctx.saw(tmod); ctx.saw(lmod)
-    tn, ln = sorted(tmod.functions), sorted(lmod.functions)
+    # helpers that only one module has (not anchors of the pinned API) are seen through at their call sites
+    helpers = {m.rel: sorted(f for f in m.functions if is_helper(m, f)) for m in (tmod, lmod)}
+    only = {m.rel: [f for f in helpers[m.rel] if f not in o.functions] for m, o in ((tmod, lmod), (lmod, tmod))}
+    if any(only.values()):
+        ctx.note("helpers defined in one module only (inlined at their call sites): %s" % only)
+    tn = sorted(f for f in tmod.functions if f not in only[tmod.rel])
+    ln = sorted(f for f in lmod.functions if f not in only[lmod.rel])
     ctx.check(tn == ln, "C14:names:sets", "function sets differ: only tools %s ; only laue %s"
               % (sorted(set(tn) - set(ln)), sorted(set(ln) - set(tn))), "xfab/tools.py / xfab/laue.py")
     ctx.floor("sibling pairs", len(set(tn) & set(ln)), 41)
@@ -245,6 +292,7 @@ def run(ctx):
     if unknown:
         ctx.note("functions without a signature entry (compared structurally only): %s" % unknown)
     stats = {"identical": 0, "semantic": 0, "preamble": 0}
+    undecided = []
     for name in sorted(set(tn) & set(ln)):
         tfn, lfn = tmod.func(name), lmod.func(name)
         ctx.saw(tmod, tfn); ctx.saw(lmod, lfn)
@@ -287,18 +335,11 @@ def run(ctx):
                            "commuted": [s_[1] for s_ in d.tau_sites]} if name in ("sintl", "genhkl_base") else None)
             stats["identical"] += 1
             continue
-        if d.equal and not d.tau_sites and name in HOMOGENEOUS_BY_PAPER:
-            tau_free = not any(isinstance(n_, ast.Name) and n_.id == "TAU" for n_ in ast.walk(nt))
-            ctx.check(tau_free, "C14:identical:%s" % name,
-                      "listed as homogeneous by a paper argument but its body contains a tau factor", where)
-            ctx.note("%s: %s" % (name, HOMOGENEOUS_BY_PAPER[name]))
-            stats["identical"] += 1
-            continue
         # trees differ: tau sites and/or other differences
         params, ret = SIG.get(name, (None, None))
-        if params is not None and ret is not None:
+        if params is not None:
             try:
-                for suffix, ok, msg in semantic_compare(ctx, name, tmod, lmod):
+                for suffix, ok, msg in semantic_compare(ctx, name, tmod, lmod, lfn=lsrc if name in RESCALED else None):
                     ctx.check(ok, "C14:semantic:%s:%s" % (name, suffix), msg, where,
                               sample={"pair": name, "tau_sites": [s_[1] for s_ in d.tau_sites][:6], "verdict": msg}
                               if suffix == "result" else None)
@@ -336,13 +377,14 @@ def run(ctx):
                      "tools carries tau factors at %s but the pair cannot be evaluated (%s)"
                      % ([s[1] for s in d.tau_sites][:4], e3err), where)
         else:
-            raise AnalysisError("siblings %s diverged structurally and cannot be compared: %s ; E3: %s"
-                                % (name, d.shapes[:2], e3err))
+            undecided.append("siblings %s diverged structurally and cannot be compared: %s ; E3: %s" % (name, d.shapes[:2], e3err))
     ctx.extra["pair_verdicts"] = stats
     # imports
     for m, other in ((tmod, "laue"), (lmod, "tools")):
         bad = [v for v in m.imports.values() if v in ("xfab." + other,) or v.endswith("." + other)]
         ctx.check(not bad, "C14:imports:%s" % m.rel, "%s imports %s" % (m.rel, bad), m.rel)
+    if undecided:
+        raise AnalysisError(" ;; ".join(undecided))
     ctx.assumptions += ["signature table of tau-weights (xfabsa/signatures.py) is the documented convention",
                         "numpy operators are deterministic functions of their arguments"]
     return ("All 41 sibling pairs compared: %(identical)d by identical normalised trees, %(semantic)d by E3 "
